@@ -86,6 +86,7 @@ class BinaryPrecisionRecallCurve(
             input,
             target,
         )
+        input, target = input.detach(), target.detach()
         self.inputs.append(input)
         self.targets.append(target)
         return self
@@ -197,6 +198,7 @@ class MulticlassPrecisionRecallCurve(
             target,
             self.num_classes,
         )
+        input, target = input.detach(), target.detach()
         self.inputs.append(input)
         self.targets.append(target)
         return self
@@ -305,6 +307,7 @@ class MultilabelPrecisionRecallCurve(
             target,
             self.num_labels,
         )
+        input, target = input.detach(), target.detach()
         self.inputs.append(input)
         self.targets.append(target)
         return self
